@@ -102,6 +102,17 @@ fn check_accessors(path: &Path, segs: &[&'static str], rep: &mut Report, case: &
     if portable.to_string() != want {
         rep.violation("C18/display", format!("display form {:?} is not the segments joined by ::", portable.to_string()), case());
     }
+    // whatever a caller's format spec asks for (width, fill, alignment), the joined segments appear in one piece:
+    // padding may surround the path (or be ignored), it may not be applied to the segments one by one
+    if segs.len() >= 2 {
+        for shown in [format!("{:14}", portable), format!("{:>14}", portable), format!("{:*^20}", portable), format!("{:<1}", portable)] {
+            if !shown.contains(&want) {
+                rep.violation("C18/display", format!("display form under a format spec {:?} does not contain the segments joined by ::", shown), case());
+                break;
+            }
+        }
+        rep.count("display_format_specs", 4);
+    }
     let ps: Vec<&str> = portable.segments.iter().map(|s| s.as_str()).collect();
     if ps != segs {
         rep.violation("C18/portable-segments", "portable form changed the segments".into(), case());
@@ -317,6 +328,30 @@ pub fn run(a: &Args) -> Report {
             r1c.count("keyword_forms", 1);
         }
         rep.merge(r1c);
+    }
+
+    // 1d. what the derive does with names that are not ASCII identifiers: the derived `type_info()` builds its path through the
+    //     checked constructors, so it succeeds exactly when every segment (after replacement) is an ASCII identifier
+    {
+        use scale_info::TypeInfo;
+        use vcommon::hand::non_ascii;
+        let mut r1d = Report::default();
+        let probes: Vec<(&str, bool, Result<Vec<&'static str>, String>)> = vec![
+            ("struct Größe", false, guard(|| <non_ascii::Größe as TypeInfo>::type_info().path.segments.to_vec())),
+            ("mod ünï { struct Plain }", false, guard(|| <non_ascii::ünï::Plain as TypeInfo>::type_info().path.segments.to_vec())),
+            ("struct Maß with replace_segment(\"Maß\", \"Mass\")", true, guard(|| <non_ascii::Maß as TypeInfo>::type_info().path.segments.to_vec())),
+            ("mod ünï { struct Repaired } with replace_segment(\"ünï\", \"uni\")", true, guard(|| <non_ascii::ünï::Repaired as TypeInfo>::type_info().path.segments.to_vec())),
+        ];
+        for (what, valid, res) in probes {
+            r1d.eval(Some(hash_bytes(what.as_bytes())));
+            match (valid, res) {
+                (false, Ok(segs)) => r1d.violation("C18/new-accepts-invalid", format!("derived type_info() of `{}` constructed the path {:?} although a segment is not an ASCII identifier", what, segs), json!({"derived": what})),
+                (true, Err(p)) => r1d.violation("C18/new-rejects-valid", format!("derived type_info() of `{}` panicked although every segment is valid after replacement: {}", what, p), json!({"derived": what})),
+                (true, Ok(segs)) if !segs.iter().all(|s| is_ident(s)) => r1d.violation("C18/new-accepts-invalid", format!("derived type_info() of `{}` constructed {:?}", what, segs), json!({"derived": what})),
+                _ => r1d.count("derived_non_ascii_names", 1),
+            }
+        }
+        rep.merge(r1d);
     }
 
     // 2. all segment lists of length <= 3 over the pool
